@@ -521,6 +521,22 @@ type Describer interface {
 	Describe() => string
 }
 
+// embedding through a pointer, through two levels, and of an interface
+type PtrEmb :struct {
+	*Base
+	tag: string
+}
+
+type Deep :struct {
+	Derived
+	k: string
+}
+
+type IfEmb :struct {
+	Describer
+	pre: string
+}
+
 type Multi interface {
 	Split(n: int) => (string, []int, *Node)
 }
@@ -703,6 +719,7 @@ func Generate(r Rand) *Driver {
 	g.formOps()
 	g.formOps2()
 	g.formOps3()
+	g.formOps4()
 	return g.emit()
 }
 
@@ -1028,6 +1045,31 @@ func (g *gen) formOps3() {
 	if g.has(kAny) {
 		x := func(i string) string { return S(kAny, i) }
 		g.add("type switch with many cases and reboxing", fmt.Sprintf("v := %s\nvar out: interface{}\nswitch t := v.(type) {\ncase int:\nout = itoa(t)\ncase string:\nout = []int{len(t), c}\ncase []int:\nout = hSI(t) %% 1000\ncase f64:\nout = int(t)\ndefault:\nout = v\n}\n%s = out\nreturn hA(out)", x("a"), x("b")))
+	}
+}
+
+// formOps4: embedding through pointers / two levels / interfaces, bound method
+// values, pointers to pointers, captured variables that are written, string and
+// byte conversions, labelled loops, comparisons of temporaries, append to map
+// elements.
+func (g *gen) formOps4() {
+	S := g.slot
+	si := func(i string) string { return S(kSliceInt, i) }
+	str := func(i string) string { return S(kStr, i) }
+	clip := func(v string) string { return "if len(" + v + ") > 150 {\n" + v + " = " + v + "[:20]\n}\n" }
+	g.add("struct embedding a pointer: promoted field, promoted method, store through it", fmt.Sprintf("e := PtrEmb{Base: &Base{note: %s, hist: %s}, tag: %s}\ne.id = b\ne.Push(c)\nif len(e.hist) > 40 {\ne.hist = e.hist[:4]\n}\nr := e.note + e.Describe() + e.tag\n"+clip("r")+"f := e\n%s = f.hist\n%s = r\nreturn hStr(r) + hSI(f.hist) + i64(f.id)", str("b"), si("c"), str("c"), si("a"), str("a")))
+	g.add("pointer to a struct embedding a pointer, boxed as interface", fmt.Sprintf("e := &PtrEmb{Base: &Base{note: %s}, tag: \"t\"}\nx: Describer = e\ny: Describer = e.Base\nr := x.Describe() + y.Describe() + e.note\n"+clip("r")+"%s = r\nreturn hStr(r)", str("b"), str("a")))
+	g.add("two levels of embedding by value", fmt.Sprintf("d := Deep{k: %s}\nd.note = %s\nd.extra = d.k + \"e\"\nd.Push(b)\nd.Derived.Base.hist = append(d.hist, c)\ne := d\nr := e.Describe() + e.extra + e.Derived.note\n"+clip("r")+"%s = r\nreturn hStr(r) + hSI(e.hist)", str("b"), str("c"), str("a")))
+	g.add("struct embedding an interface", fmt.Sprintf("w := IfEmb{Describer: &Base{note: %s, id: b}, pre: %s}\nv := w\nr := v.pre + v.Describe()\nw.Describer = &Derived{extra: \"x\"}\nr += w.Describe()\n"+clip("r")+"%s = r\nreturn hStr(r)", str("b"), str("c"), str("a")))
+	g.add("bound method value", fmt.Sprintf("bs := &Base{note: %s, id: c}\nf := bs.Describe\npush := bs.Push\npush(b)\npush(c)\nr := f() + f()\n"+clip("r")+"%s = r\n%s = bs.hist\nreturn hStr(r) + hSI(bs.hist)", str("b"), str("a"), si("a")))
+	g.add("captured variables written by the closure", fmt.Sprintf("acc := %s\nlst := %s\nadd := func(s: string) {\nacc = acc + s\nlst = append(lst, len(acc))\n}\nfor i := 0; i < 1+c%%4; i++ {\nadd(itoa(i + b))\n}\n"+clip("acc")+"if len(lst) > 40 {\nlst = lst[:4]\n}\n%s = acc\n%s = lst\nreturn hStr(acc) + hSI(lst)", str("b"), si("c"), str("a"), si("a")))
+	g.add("string to bytes and back, byte-wise edit", fmt.Sprintf("bs := []byte(%s + \"ab\")\nfor i := range bs {\nif i%%3 == c%%3 {\nbs[i] = byte('a' + (b+i)%%26)\n}\n}\nt := string(bs[1:])\nu := string(bs[:1]) + t\n"+clip("u")+"%s = u\nreturn hStr(u) + i64(len(t))", str("b"), str("a")))
+	g.add("labelled continue and break with references in scope", fmt.Sprintf("r := \"\"\nn := 0\nouter:\nfor i := 0; i < 4; i++ {\nrow := %s + itoa(i)\nfor j := 0; j < 4; j++ {\ncell := row + itoa(j)\nif (i+j+b)%%5 == 0 {\ncontinue outer\n}\nif (i*j+c)%%7 == 6 {\nbreak outer\n}\nif len(r) < 100 {\nr += cell[len(cell)-2:]\n}\nn++\n}\n}\n%s = r\nreturn hStr(r) + i64(n)", str("b"), str("a")))
+	g.add("comparisons of temporaries", fmt.Sprintf("x, y := %s, %s\nn := 0\nif x+\"a\" < y+\"b\" {\nn += 1\n}\nif x+y == y+x {\nn += 2\n}\nia: interface{} = x + \"q\"\nib: interface{} = y + \"q\"\nif ia == ib {\nn += 4\n}\nif ia != nil && itoa(b) >= itoa(c) {\nn += 8\n}\nreturn i64(n)", str("b"), str("c")))
+	g.add("append to a map element", fmt.Sprintf("m := make(map[string][]string)\nfor i := 0; i < 2+c%%3; i++ {\nk := itoa((b + i) %% 2)\nm[k] = append(m[k], %s+k)\n}\nr := \"\"\nfor _, v := range m[\"0\"] {\nr += v\n}\nr += itoa(len(m[\"1\"]))\n"+clip("r")+"%s = r\nreturn hStr(r)", str("b"), str("a")))
+	if g.has(kNode) {
+		n := func(i string) string { return S(kNode, i) }
+		g.add("pointer to pointer", fmt.Sprintf("p := %s\npp := &p\nq := *pp\nif q != nil {\npp = &q.next\nif *pp != nil {\nq = *pp\n}\n}\nr := &Node{val: b, rank: 0, name: itoa(c)}\nhold := &r\n(*hold).items = append((*hold).items, c)\nreturn hN(q) + hN(*hold)", n("a")))
 	}
 }
 
